@@ -90,6 +90,48 @@ example : (⟨some "win".toList, none, some []⟩ : LogSource).covers ⟨some "w
     (⟨some "win".toList, none, some []⟩ : LogSource).covers ⟨some "win".toList, some "p".toList, some []⟩ = true ∧
     (⟨some "win".toList, none, none⟩ : LogSource).covers ⟨some "win".toList, none, some []⟩ = true := by decide
 
+/-- `covers` is a partial order: two log sources that cover each other are equal … -/
+theorem covers_antisymm (f g : LogSource) (h1 : f.covers g = true) (h2 : g.covers f = true) :
+    f = g := by
+  obtain ⟨a1, a2, a3⟩ := (covers_iff f g).mp h1
+  obtain ⟨b1, b2, b3⟩ := (covers_iff g f).mp h2
+  cases f with
+  | mk fc fp fs =>
+    cases g with
+    | mk gc gp gs =>
+      simp only at a1 a2 a3 b1 b2 b3
+      have e1 : fc = gc := by
+        cases fc with
+        | none => cases gc with
+          | none => rfl
+          | some c => exact (b1 c rfl).symm ▸ rfl
+        | some c => exact (a1 c rfl).symm
+      have e2 : fp = gp := by
+        cases fp with
+        | none => cases gp with
+          | none => rfl
+          | some c => exact (b2 c rfl).symm ▸ rfl
+        | some c => exact (a2 c rfl).symm
+      have e3 : fs = gs := by
+        cases fs with
+        | none => cases gs with
+          | none => rfl
+          | some c => exact (b3 c rfl).symm ▸ rfl
+        | some c => exact (a3 c rfl).symm
+      rw [e1, e2, e3]
+
+/-- … and narrowing is monotone: a filter that applies through a more specific log source also
+applies through every log source covering that one (same rule list). -/
+theorem applies_mono (f g : LogSource) (fr : RuleList) (r : RuleInfo) (hfg : f.covers g = true)
+    (h : applies g fr r = true) : applies f fr r = true := by
+  unfold applies at h ⊢
+  simp only [Bool.and_eq_true] at h ⊢
+  exact ⟨⟨h.1.1, covers_trans f g r.logsource hfg h.1.2⟩, h.2⟩
+
+example : applies ⟨some "proc".toList, none, none⟩ .any
+    ⟨false, ⟨some "proc".toList, some "win".toList, none⟩, ["r1".toList]⟩ = true :=
+  applies_mono _ ⟨some "proc".toList, some "win".toList, none⟩ _ _ (by decide) (by decide)
+
 /-! ## 2. The scan renames exactly the names
 
 `NamesOK e` (`Lemmas/Filter.lean`): every identifier and every selector pattern of `e` is one token
